@@ -40,7 +40,7 @@ def run(ck):
     ck.rule = ("one case = one fresh server + a seeded history of 40..120 ops over 1..3 storage indexes "
                "(sometimes sharing a prefix dir) x share numbers 0..3; distinct = distinct op history; "
                "non-trivial = history has an overlapping write, a close and an abort/timeout/disconnect")
-    ncases = 300 if ck.tier == "quick" else 4000
+    ncases = 250 if ck.tier == "quick" else 12000
     ck.assumptions.append("upload inactivity timeout is 30 min (BucketWriter); judged only when >1 s away from it")
 
     for ci in range(ncases):
@@ -472,11 +472,15 @@ def _first_diff(a, b):
     return min(len(a), len(b))
 
 
-# MUST_CATCH (self-test on scratch copies, VF_REPO mechanism) -- see final lines of the report:
-#  1. immutable.py BucketWriter.write: conflict check compares the wrong slice
-#     (writing_chunk = data[chunk_start - offset:chunk_stop - offset] -> data[:chunk_len])
-#  2. immutable.py BucketWriter.abort: does not call self.ss.bucket_writer_closed(self, 0)
-#  3. server.py get_shares(): also lists incoming/ (visibility before close)
-#  4. immutable.py ShareFile.read_share_data: no clipping at _lease_offset (reads run into the leases)
-#  5. immutable.py BucketWriter.abort: os.remove(self.incominghome) dropped
-#  6. immutable.py BucketWriter.write: ConflictingWriteError raised *after* write_share_data
+# MUST_CATCH -- planted breaks run against scratch copies (VF_REPO=/var/tmp/...), quick tier, seed 0; all exit 1:
+#  1. immutable.py BucketWriter.write: conflict check compares the wrong slice (data[:chunk_len])
+#       -> consistent-write-rejected, wrong-rejection-error                                   CAUGHT
+#  2. immutable.py BucketWriter.abort: self.ss.bucket_writer_closed(self, 0) dropped          CAUGHT (reservation-ledger)
+#  3. server.py get_shares(): also lists incoming/ (visible before close)                     CAUGHT (visible-before-close)
+#  4. immutable.py ShareFile.read_share_data: no clipping at the lease offset                 CAUGHT (read-not-clipped)
+#  5. immutable.py BucketWriter.abort: os.remove(incominghome) dropped                        CAUGHT (abort-leaves-share)
+#  6. immutable.py BucketWriter.write: data written before the conflict check                 CAUGHT (conflict-accepted, rejected-write-changed-data)
+#  7. immutable.py _abort_due_to_timeout: does not abort                                      CAUGHT (abort-leaves-share, reservation-ledger)
+#  8. immutable.py BucketWriter.disconnected: ignored                                         CAUGHT (abort-leaves-share, reservation-ledger)
+#  9. immutable.py write_share_data: DataTooLargeError limit off by one                       CAUGHT (too-large-accepted)
+# 10. immutable.py BucketWriter.close: rename to the final home dropped                       CAUGHT (op-raises-close-FileNotFoundError)
